@@ -22,7 +22,10 @@ CHECKS = {
         'nondeterminism source (keyword regex order from set iteration under '
         'PYTHONHASHSEED). Seeded exploration of chunkings and delivery forms '
         '(list, generator, binary file object) over sources rich in multi-line '
-        'tokens. NOT decided: that the token list is the one the Lua/PICO-8 '
+        'tokens, sizes up to 16 KiB, a second lexer interleaved between the '
+        'chunks, and - for valid programs - delivery through the real .p8 / '
+        '#include / .p8.png loaders and `p8tool listtokens`. NOT decided: '
+        'that the token list is the one the Lua/PICO-8 '
         'grammar dictates (longest match, kinds, values) - a pure function of '
         'the text that needs a reference lexer, which is not this technique; a '
         'reordering of the symbol regexes is not expected to be caught here.',
@@ -43,12 +46,18 @@ CHECKS = {
         'function, and every internal failure source reachable through public '
         'arguments (raising/garbage Lua writers, unencodable sections, bad '
         'labels, bad CLI arguments, lowered recursion limit). Oracle: if the '
-        'operation failed, (exists, is_file, bytes) of the destination are '
-        'identical to the snapshot taken before. Routes: file.to_file, and '
-        'tool.main writep8/luamin/luafmt [--overwrite]/build.',
+        'operation failed, (exists, is_file, bytes, link target) of the '
+        'destination are identical to the snapshot taken before; if success is '
+        'reported although an injected fault fired, the destination must be '
+        'unchanged or decode to the intended cart. Routes: file.to_file (also '
+        'over its own input, and after an earlier successful write), and '
+        'tool.main writep8/luamin/luafmt [--overwrite]/build, single- and '
+        'multi-file, with relative and absolute arguments, odd names, '
+        'symlinked destinations, TMPDIR inside the store.',
         note='Faults are injected only until the formatter\'s to_file returns '
-        '(the property\'s premise is that producing the cart fails); the final '
-        'copy into the destination is outside the statement. Crash points are '
+        '(the property\'s premise is that producing the cart fails); a failure '
+        'the code raises itself after that point counts like any other. '
+        'Crash points are '
         'Python line boundaries inside pico8/; failures inside C extensions are '
         'represented by the write fault on the stream they feed. No power-loss '
         'model. Real picotool, pypng and file I/O on tmpfs; the only stub is the '
@@ -196,6 +205,12 @@ def main():
     for pid, c in CHECKS.items():
         if pid in built:
             engines.setdefault(c['engine'], []).append(pid)
+    for c in checks:
+        c['level_claimed']['text'] += (
+            ' Every run executes in a forked child of a process that has '
+            'imported but never executed picotool, in its own directory tree '
+            '(store, HOME, TMPDIR); part of the runs is repeated under python '
+            '-O, in the C locale and with default-encoding warnings as errors.')
     doc = {
         'version': 1,
         'setup_cmd': './check selftest-setup',
@@ -222,10 +237,14 @@ def main():
         'notes': 'All checks run /repo\'s current working tree in-process '
                  '(PICOSIM_REPO overrides the path for mutant runs). '
                  'VERIF_SEED selects the run; every scenario derives from it. '
-                 'known_findings.json lists recorded and repaired defects; '
+                 'known_findings.json lists recorded (none) and repaired (13) '
+                 'defects; '
                  'regressions/ holds minimised scenarios of repaired defects, '
                  'replayed on every run. Self-tests: ./check '
-                 'selftest-determinism, ./check selftest-mutants.',
+                 'selftest-determinism, ./check selftest-mutants (own mutants '
+                 'and the changes seeded by independent sub-agents), ./check '
+                 'selftest-refactors (24 behaviour-preserving '
+                 're-implementations must stay quiet).',
     }
     with open(os.path.join(HERE, 'MANIFEST.json'), 'w') as fh:
         json.dump(doc, fh, indent=1)
